@@ -130,6 +130,10 @@ class Outcome:
         self.prop = prop
         self.violations = []   # (replay_path, no_input: bool)
         self.known = []
+        # replay files of an earlier run of this property are stale
+        import glob
+        for old in glob.glob(f'{ROOT}/replays/{prop}_*.json'):
+            os.remove(old)
 
     def violation(self, name, obj, no_input=False):
         p = write_replay(self.prop, name, obj)
